@@ -1,3 +1,4 @@
 -- family proxy: C03 C05 C06 C17.  Everything listed here must build: it is part of `lake build`.
 import Thanos.Driver.Proxy
 import Thanos.Props.C05
+import Thanos.Props.C17
